@@ -138,8 +138,8 @@ Ltac split_dom H Hs1 Hs2 Hk Hf :=
   apply andb_true_iff in H; destruct H as [H Hs2];
   apply andb_true_iff in H; destruct H as [H Hs1].
 
-Lemma matchers_agree : forall c, m_match c = s_match c.
-Proof. intros. unfold m_match, s_match. destruct (c_fn c); reflexivity. Qed.
+Lemma matchers_agree : forall c, s_is_if_not (c_fn c) = false -> m_match c = s_match c.
+Proof. intros c H. unfold m_match, s_match. destruct (c_fn c); try discriminate H; reflexivity. Qed.
 
 Lemma parse_sfv_scan : forall c,
   no_count (c_fn c) = true -> keywords_ok c = true -> not_test_not (c_test c) = true ->
@@ -162,6 +162,7 @@ Section Scan.
   Variable c : call.
   Local Notation l := (elems (c_seq c)).
   Local Notation v := (mkSfv (s_start c) (c_end c) None (c_from_end c)).
+  Hypothesis NI : s_is_if_not (c_fn c) = false.
   Hypothesis B1 : (s_start c <= s_end c l)%nat.
   Hypothesis B2 : (s_end c l <= length l)%nat.
   Local Notation w := (slice (s_start c) (s_end c l) l).
@@ -180,7 +181,7 @@ Section Scan.
 
   Lemma m_find_eq : m_find c v = opt_elt (s_find (s_match c) (c_from_end c) w).
   Proof.
-    pose proof scan_here as Hs. unfold m_find. rewrite matchers_agree.
+    pose proof scan_here as Hs. unfold m_find. rewrite matchers_agree by exact NI.
     destruct (c_seq c) eqn:S; cbn [elems] in *;
       try (match goal with |- context [m_scan ?a ?b ?d] => destruct (m_scan a b d) end; [contradiction| |]; destruct Hs as [-> _]; reflexivity).
     unfold slice; rewrite skipn_nil, firstn_nil. unfold s_find. destruct (c_from_end c); reflexivity.
@@ -188,7 +189,7 @@ Section Scan.
 
   Lemma m_position_eq : m_position c v = opt_int (s_position (s_match c) (c_from_end c) (s_start c) w).
   Proof.
-    pose proof scan_here as Hs. unfold m_position. rewrite matchers_agree.
+    pose proof scan_here as Hs. unfold m_position. rewrite matchers_agree by exact NI.
     destruct (c_seq c) eqn:S; cbn [elems] in *;
       try (match goal with |- context [m_scan ?a ?b ?d] => destruct (m_scan a b d) end; [contradiction| |]; destruct Hs as [_ ->]; reflexivity).
     unfold slice; rewrite skipn_nil, firstn_nil. unfold s_position. destruct (c_from_end c); reflexivity.
@@ -199,7 +200,7 @@ Section Scan.
     intros Ha. unfold m_count. cbn [v_start v_end v_from_end].
     assert (norm_end (go_len (c_seq c)) (c_end c) = s_end c l) as Hne.
     { rewrite (go_len_ascii _ Ha). unfold s_end. apply norm_end_in_range. exact B2. }
-    rewrite matchers_agree.
+    rewrite matchers_agree by exact NI.
     destruct (c_seq c) eqn:S; cbn [elems] in *;
       try (rewrite Hne;
            match goal with |- context [(length ?a <? ?b)%nat] => destruct (Nat.ltb_spec (length a) b) end; [lia|]; cbn [andb];
@@ -225,10 +226,10 @@ Proof.
   pose proof (parse_sfv_scan c Hnc D0 Htn) as Hp.
   unfold m_call, s_call. rewrite Hp.
   destruct (c_fn c) eqn:F; try discriminate Hf.
-  - now rewrite m_find_eq.
-  - now rewrite m_find_eq.
-  - now rewrite m_position_eq.
-  - now rewrite m_position_eq.
-  - rewrite m_count_eq; auto. cbn in D. apply andb_true_iff in D as [_ D]. exact D.
-  - rewrite m_count_eq; auto.
+  - rewrite m_find_eq; auto; now rewrite F.
+  - rewrite m_find_eq; auto; now rewrite F.
+  - rewrite m_position_eq; auto; now rewrite F.
+  - rewrite m_position_eq; auto; now rewrite F.
+  - rewrite m_count_eq; auto; try (now rewrite F). cbn in D. apply andb_true_iff in D as [_ D]. exact D.
+  - rewrite m_count_eq; auto; now rewrite F.
 Qed.
